@@ -545,6 +545,13 @@ def pool_f():
          ('table', 6, [(1, 'a', I('u8')), (2, 'a', vec(STR))]), ('table', 5, [(1, 'a', I('u8')), (3, 'a', vec(STR))]),
          ('table', 5, [(1, 'a', I('u8')), (2, 'd', vec(STR))]), ('table', 5, [(2, 'a', vec(STR)), (1, 'a', I('u8'))]),
          ('table', 5, [(1, 'a', I('u8'))])],
+        # table entries holding an integral sequence in its fungible forms: the entry's declared size is Size() of
+        # the form being written, so re-encoding under the other form exercises that form's Size()
+        [('table', 7, [(1, 'a', ('struct', [vec(I('u32'))])), (2, 'a', I('u8'))]),
+         ('table', 7, [(1, 'a', ('struct', [lbuf(120, 'u8', I('u32'))])), (2, 'a', I('u8'))]),
+         ('table', 7, [(1, 'a', ('struct', [lbuf(120, 'u64', I('u32'), 'carray')])), (2, 'a', ('wrap', I('u8')))]),
+         ('table', 7, [(1, 'a', ('struct', [vec(I('i16'))])), (2, 'a', I('u8'))]),
+         ('table', 7, [(1, 'a', ('struct', [lbuf(70, 'i8', I('i16'))])), (2, 'a', I('u8'))])],
     ]
     terms, pairs = [], []
     ranges = []
